@@ -164,3 +164,49 @@ def expected_plain(line):
     """What re-emitting a parsed record without conversion must print."""
     f = line.split("\t")
     return "\t".join(twelve(line) + f[12:])
+
+
+def big_file_case(seed, nrec, stable, pad=120, block=20000):
+    """A deterministic large GAF (many records, several BGZF blocks) over a small fixed bubble chain.
+    Size thresholds (e.g. 'more than 1000 selected records') are invisible to small generated files."""
+    import random
+
+    rnd = random.Random(seed)
+    g = {"nodes": {}, "links": []}
+    pos = 0
+    for i in range(1, 13):
+        ln = rnd.randint(3, 7)
+        g["nodes"]["s%d" % i] = {"seq": "".join(rnd.choice("ACGT") for _ in range(ln)), "ln": ln, "sn": "chr1", "so": pos, "sr": 0}
+        pos += ln
+        if i > 1:
+            g["links"].append(["s%d" % (i - 1), "+", "s%d" % i, "+"])
+    for k, (a, b) in enumerate([(2, 4), (6, 8), (9, 11)]):
+        h = "h%d" % (k + 1)
+        g["nodes"][h] = {"seq": "ACGTAC", "ln": 6, "sn": "HG01#1#ctg%d" % k, "so": 100 * k, "sr": 1}
+        g["links"].append(["s%d" % a, "+", h, "+"])
+        g["links"].append([h, "+", "s%d" % b, "+"])
+    lm = models.LinkModel(g["links"])
+    lines = []
+    ids = list(g["nodes"])
+    for i in range(nrec):
+        n = rnd.choice(ids)
+        o = rnd.choice("++-")
+        steps = [(">" if o == "+" else "<", n)]
+        for _ in range(rnd.randint(0, 4)):
+            nxt = lm.steps(n, o)
+            if not nxt:
+                break
+            n, o = rnd.choice(nxt)
+            steps.append((">" if o == "+" else "<", n))
+        total = sum(g["nodes"][x]["ln"] for _, x in steps)
+        ps = rnd.randint(0, total - 1)
+        pe = rnd.randint(ps + 1, total)
+        rec = {"name": "q%d" % i, "qlen": pe - ps + 4, "qs": 2, "qe": 2 + pe - ps, "strand": "+", "steps": steps, "plen": total,
+               "ps": ps, "pe": pe, "matches": pe - ps, "block": pe - ps, "mapq": 60, "cg": "%d=" % (pe - ps),
+               "tags": ["NM:i:0", "zq:Z:" + "k" * rnd.randint(0, pad)], "cg_pos": 1}
+        lines.append(conv.stable_line(g["nodes"], rec) if stable else gen_gaf.record_line(rec))
+    size = sum(len(l) + 1 for l in lines)
+    cuts = list(range(block, size, block))
+    case = {"gfa": gen_graph.gfa_text(g, with_seq=False, order_seed=seed), "gaf": lines,
+            "bgzf": {"cuts": cuts, "empty": False}, "stable": stable}
+    return g, case
